@@ -278,7 +278,7 @@ static inline const char *parse_ ## NAME                                    \
         return 0;                                                           \
     case PARSE_INTEGER_SIGNED:                                              \
         if (x <= (uint64_t)(LIMIT) + 1) {                                   \
-            *value = (TYPE)-(int64_t)x;                                     \
+            *value = (TYPE)(int64_t)((uint64_t)0 - x);                      \
             return buf;                                                     \
         }                                                                   \
         *status = PARSE_INTEGER_UNDERFLOW;                                  \
@@ -310,7 +310,7 @@ static inline const char *parse_hex_ ## NAME                                \
         return 0;                                                           \
     case PARSE_INTEGER_SIGNED:                                              \
         if (x <= (uint64_t)(LIMIT) + 1) {                                   \
-            *value = (TYPE)-(int64_t)x;                                     \
+            *value = (TYPE)(int64_t)((uint64_t)0 - x);                      \
             return buf;                                                     \
         }                                                                   \
         *status = PARSE_INTEGER_UNDERFLOW;                                  \
